@@ -40,7 +40,7 @@ processes) the execution traces; non-trivial = program with a non-primitive tabl
 /// `level` 1: circuit + table degrees + preprocessed columns; 2: + preprocessed commitment;
 /// 3: + the execution traces.
 pub fn digest<C: Pv>(c: &Case, level: u8) -> Result<Vec<(String, u64)>, String> {
-    let built: Built<C> = e1::interpret::<C>(&c.prog, e1::Excl::ALL_SAT);
+    let (built, _linked): (Built<C>, bool) = e1::interpret_linked::<C>(&c.prog, e1::Excl::ALL_SAT);
     let Built {
         builder,
         publics,
